@@ -155,7 +155,7 @@ chk('C14', 'exploration',
     'request-log tiling oracle at API level', '4 C14', 'world,runner')
 chk('C15', 'exploration',
     'Exhaustive table: every allowed extra-argument name x method x mode (incl. failing multipart so the abort is seen) x front-end, '
-    'one real transfer per cell, captured keyword arguments (and the DEBUG log's duplicates) compared with the installed botocore S3 model; all checksum-name '
+    'one real transfer per cell, captured keyword arguments (and the duplicates in the DEBUG log) compared with the installed botocore S3 model; all checksum-name '
     'subsets; all non-allowed names rejected before any request.',
     'Compared against botocore 1.43.x as installed; copy HeadObject judged by the mapped names only. Two findings (F10, F11b) are '
     'recorded as KNOWN-FINDING.', 'exhaustive argument-routing table vs service model', '4 C15', 'world,runner')
